@@ -9,3 +9,12 @@ Theorem C15_old_nil_write_refuted :
     let m := load_enh_old (PPrefix []) (PPrefix [119;47]) [] e in
     acl m (eu_name e) topic true = Panic /\ acl m (eu_name e) [114;47;120] false = Deny.
 Proof. exists (mkEnh [101] [2] (mkACL (Some [114;47]) None)), [119;47;120]. vm_compute. split; reflexivity. Qed.
+
+(* binding the alias before the ACL is consulted lets a denied topic through: publish (topic 9, alias 1)
+   is denied, the alias-only publish that follows is routed to topic 9 *)
+Theorem C15_alias_bound_before_acl_refuted :
+  exists ps, let allowed := fun t => negb (N.eqb t 9) in
+    let '(tbl1, v1) := alias_pub_early allowed [] (fst (hd (None, 0%N) ps)) (snd (hd (None, 0%N) ps)) in
+    let '(_, v2) := alias_pub_early allowed tbl1 (fst (nth 1 ps (None, 0%N))) (snd (nth 1 ps (None, 0%N))) in
+    v1 = ADenied /\ v2 = ARouted 9%N.
+Proof. exists [(Some 9%N, 1%N); (None, 1%N)]. vm_compute. split; reflexivity. Qed.
